@@ -895,6 +895,16 @@ func vRunWriterAPI(c *vCase) bool {
 		for j := range d {
 			d[j] = uint16(vPick(r, 0, 65535, 32768, r.Intn(65536)))
 		}
+		if vChance(r, 0.12) {
+			// a record whose length differs from the file's fixed record length (e.g. a variable-length
+			// edge-multi record reaching a channel that writes LJH 2.2): whatever the writer answers,
+			// the file must still consist of whole records that are exactly the accepted ones
+			d = d[:vPick(r, 0, len(d)/2, len(d)-1)]
+			if vChance(r, 0.3) {
+				d = append(d, make([]uint16, n+1-len(d))...)
+			}
+			c.Cov("api_wrong_length_records_offered", 1)
+		}
 		recs[i] = rec{i64(), i64(), d}
 	}
 	div, offs := vPick(r, 0, 1, 32, 64), r.Intn(64)
@@ -908,9 +918,11 @@ func vRunWriterAPI(c *vCase) bool {
 	}
 	w22.WriteHeader(time.Unix(vT0Unix, 0))
 	acc := 0
+	var acc22 []rec
 	for _, x := range recs {
 		if err := w22.WriteRecord(x.frame, x.ts, x.data); err == nil {
 			acc++
+			acc22 = append(acc22, x)
 		}
 		if vChance(r, 0.2) {
 			w22.Flush()
@@ -928,9 +940,10 @@ func vRunWriterAPI(c *vCase) bool {
 		return false
 	}
 	for i := 0; i < acc; i++ {
-		want := recs[i].frame*int64(div) + int64(offs) // wrapping int64 arithmetic, as the format defines the sub-frame count
-		if f.recs[i].subframe != want || f.recs[i].timeUS != recs[i].ts || !vEqU16(f.recs[i].data, recs[i].data) {
-			c.Violate("c05:ljh22-record", "writer API: record %d = {%d,%d}, written {%d (frame %d x %d + %d),%d}", i, f.recs[i].subframe, f.recs[i].timeUS, want, recs[i].frame, div, offs, recs[i].ts)
+		want := acc22[i].frame*int64(div) + int64(offs) // wrapping int64 arithmetic, as the format defines the sub-frame count
+		if f.recs[i].subframe != want || f.recs[i].timeUS != acc22[i].ts || !vEqU16(f.recs[i].data, acc22[i].data) {
+			c.Violate("c05:ljh22-record", "writer API: record %d = {%d,%d,%d samples}, accepted {%d (frame %d x %d + %d),%d,%d samples}", i, f.recs[i].subframe, f.recs[i].timeUS, len(f.recs[i].data),
+				want, acc22[i].frame, div, offs, acc22[i].ts, len(acc22[i].data))
 			return false
 		}
 	}
